@@ -7,10 +7,10 @@ CONSTANTS
   QCap = 1
   MsgLens <- Lens03
   MaxMsgs = 2
-  MaxInject = 1
-  InjectKinds <- InjBad
+  MaxInject = 0
+  InjectKinds <- InjNone
   Senders <- OnlyA
-  Stoppers <- NoSide
+  Stoppers <- OnlyA
 INIT Init
 NEXT Next
 INVARIANTS TypeOK PerChannelFIFOExactlyOnce NoPartialDelivery CompleteAtCleanClose
